@@ -96,7 +96,11 @@ Theorem e2e_byte_pcm en wo ch total w chunks f :
   N.of_nat (length samples) < 2 ^ 36 ->
   exists blocks,
     CS.dec_stream (f_stream f) = Some (conv_si (f_si f), map CS.interleave_frame blocks, CS.EndEof) /\
-    concat (map CS.interleave_frame blocks) = firstn (N.to_nat ch * (length samples / N.to_nat ch)) samples.
+    concat (map CS.interleave_frame blocks) = firstn (N.to_nat ch * (length samples / N.to_nat ch)) samples /\
+    (* the blocks themselves, for the readers area *)
+    Forall (EP.block_ok (conv_si (f_si f)) bps) blocks /\ EP.short_only_last (conv_si (f_si f)) blocks /\
+    FlacCodec.Ast.si_total (conv_si (f_si f)) = EP.blocks_samples blocks /\
+    FlacCodec.Ast.si_channels (conv_si (f_si f)) = ch /\ EP.blocks_samples blocks < 2 ^ 36.
 Proof.
   intros Hwf Hnew Hrun Hbytes n samples Hfits Hlen36.
   pose proof (byte_new_wf p en [] wo rate bps ch total w Hwf Hnew) as Hbw.
@@ -229,7 +233,7 @@ Proof.
   assert (Hsub : (length (concat (map (decode_bytes en n) cs) ++ decode_bytes en n whole) <= length samples)%nat).
   { rewrite Esamples, !app_length. lia. }
   assert (H3664 : 2 ^ 36 < 2 ^ 64) by (apply N.pow_lt_mono_r; lia).
-  destruct (e2e_encoder o L md5 md5_length p rate bps wo ch t e0 (bl1 ++ lastbl) e2 f He0 Hr Hfin Hok) as [Hdec _].
+  assert (Hshape : EP.short_only_last si (bl1 ++ lastbl)).
   { apply short_only_last_app; [|exact Llast].
     destruct (chunks_blocks_ok bps si ch bs Hc1 Hc8 Hb1 Hb32 ltac:(lia) Ssb Ssc Ssm (map (decode_bytes en n) cs) bl1) as (_ & _ & _ & _ & Hl1).
     { clear - Hf1. induction Hf1; constructor; auto. } { exact Hcs. }
@@ -241,6 +245,7 @@ Proof.
     * apply Forall_cons_iff in Fl. destruct Fl as [Lx _]. rewrite Lx in Hcb. fold c in Hcb.
       assert (N.to_nat (FlacCodec.Enc.block_len bk) = b) by nia. lia.
     * apply IH. apply Forall_cons_iff in Fl. tauto. }
+  destruct (e2e_encoder o L md5 md5_length p rate bps wo ch t e0 (bl1 ++ lastbl) e2 f He0 Hr Hfin Hok Hshape) as [Hdec Htot].
   { (* at most one block per sample *)
     assert (Hcnt : (length (bl1 ++ lastbl) <= length (concat (map (decode_bytes en n) cs ++ map (decode_bytes en n) wholes)))%nat).
     { rewrite Hcount. assert (F : Forall (chunk_cond bps ch bs) (map (decode_bytes en n) cs ++ map (decode_bytes en n) wholes)) by (apply Forall_app; split; assumption).
@@ -248,7 +253,9 @@ Proof.
     rewrite concat_app, Hwc, Hwq in Hcnt.
     unfold FlacCodec.Header.MAX_FRAME_NUMBER. change (2 ^ 36 - 1 + 1) with (2 ^ 36). lia. }
   { lia. }
-  exists (bl1 ++ lastbl). split; [exact Hdec|]. rewrite Hcat.
+  exists (bl1 ++ lastbl). split; [exact Hdec|].
+  split; [|split; [exact Hok|split; [exact Hshape|split; [exact Htot|split; [exact Ssc|lia]]]]].
+  rewrite Hcat.
   (* the whole PCM frames of all samples *)
   rewrite Esamples, app_assoc.
   set (A := concat (map (decode_bytes en n) cs) ++ decode_bytes en n whole).
